@@ -295,12 +295,78 @@ def judge_disable(src, subsets, col=None):
         shutil.rmtree(d, ignore_errors=True)
 
 
+def cli_failures(d, files, config=None):
+    """Run `python -m pyanalyze` on several files in one run; -> sorted [(file, code, line, col, first line)] or None."""
+    import json as _json
+
+    out = os.path.join(d, "out.json")
+    if os.path.exists(out):
+        os.unlink(out)
+    args = (["--config-file", config] if config else []) + ["--json-output", out] + list(files)
+    code, so, se = sut.run_cli(args, cwd=d)
+    if not os.path.exists(out):
+        return [] if code == 0 else None
+    rows = []
+    for f in _json.load(open(out)):
+        rows.append((os.path.basename(f.get("filename", "")), f.get("code") or "", f.get("lineno") or 0,
+                     f.get("col_offset") if f.get("col_offset") is not None else -1, first_line(f.get("description", ""))))
+    return sorted(rows)
+
+
+def judge_disable_multi(src, S, col=None):
+    """Several modules checked in ONE run, a per-module override disabling S for exactly one of them: the other
+    module keeps all its diagnostics, whichever of the two is checked first."""
+    fails = []
+    d = tempfile.mkdtemp(prefix="pv_c11m_")
+    try:
+        names = ["pvm_a", "pvm_b", "pvm_c"]
+        for n in names:
+            open(os.path.join(d, n + ".py"), "w").write(src)
+        files = [n + ".py" for n in names]
+        open(os.path.join(d, "base.toml"), "w").write("[tool.pyanalyze]\n" + "".join(f"{c} = true\n" for c in BASE_ON))
+        base = cli_failures(d, files, "base.toml")
+        if not base or cli_failures(d, files, "base.toml") != base:
+            return []
+        S = [c for c in S if c in {r[1] for r in base}]
+        if not S:
+            return []
+        for target in names:
+            for polarity in ("disable", "enable-only-here"):
+                if polarity == "disable":
+                    text = "[tool.pyanalyze]\n" + "".join(f"{c} = true\n" for c in BASE_ON if c not in S) + "".join(f"{c} = true\n" for c in S) \
+                        + f"[[tool.pyanalyze.overrides]]\nmodule = \"{target}\"\n" + "".join(f"{c} = false\n" for c in S)
+                    expected = [r for r in base if not (r[0] == target + ".py" and r[1] in S)]
+                else:
+                    text = "[tool.pyanalyze]\n" + "".join(f"{c} = true\n" for c in BASE_ON if c not in S) + "".join(f"{c} = false\n" for c in S) \
+                        + f"[[tool.pyanalyze.overrides]]\nmodule = \"{target}\"\n" + "".join(f"{c} = true\n" for c in S)
+                    expected = [r for r in base if r[0] == target + ".py" or r[1] not in S]
+                open(os.path.join(d, "cfg.toml"), "w").write(text)
+                got = cli_failures(d, files, "cfg.toml")
+                if col is not None:
+                    col.case(nontrivial_id=(src, tuple(S), "multi", target, polarity), label=["mechanism:override-several-modules"])
+                if got is None:
+                    continue
+                if got != expected:
+                    lost = [x for x in expected if x not in got]
+                    added = [x for x in got if x not in expected]
+                    rel = "other-module-lost" if any(x[0] != target + ".py" for x in lost) else \
+                        "other-module-kept" if any(x[0] != target + ".py" for x in added) else "target-module-wrong"
+                    fails.append((f"disable|override-several-modules|{polarity}|{rel}",
+                                  f"three copies of one module checked in one run, override for {target} ({polarity} {S}): expected "
+                                  f"{[(f, c, l) for f, c, l, _, _ in expected]}, got {[(f, c, l) for f, c, l, _, _ in got]}",
+                                  {"src": src, "disable": S, "mech": "multi"}))
+                    return fails
+        return fails
+    finally:
+        shutil.rmtree(d, ignore_errors=True)
+
+
 # ----------------------------------------------------------------- shards
 
 
 def shards(tier, seed):
     n = 16
-    out = [{"mode": "templates"}]
+    out = [{"mode": "templates"}] + [{"mode": "multi", "index": i} for i in range(len(TEMPLATES))]
     out += [{"mode": "corpus", "index": i, "programs": 4 if tier == "quick" else 250, "variants": 40 if tier == "quick" else 400} for i in range(n - 1)]
     return out
 
@@ -317,6 +383,13 @@ def run_shard(spec):
             for key, what, case in judge_disable(src, subsets, col) or []:
                 col.fail(key, what, case)
         col.sample(TEMPLATES[0])
+        return col.result()
+    if spec["mode"] == "multi":
+        src = TEMPLATES[spec["index"]]
+        codes = sorted({d.code for d in check(src)} - {"unused_ignore", "bare_ignore"})
+        for S in [[c] for c in codes[:2]] + ([codes[:2]] if len(codes) > 1 else []):
+            for key, what, case in judge_disable_multi(src, S, col):
+                col.fail(key, what, case)
         return col.result()
 
     def make():
@@ -351,6 +424,8 @@ MAX_ABSTAIN = 0.7
 def replay_all(case):
     if "pick" in case:
         fails = judge_comments(case["src"], picks=[tuple(case["pick"])]) or []
+    elif case.get("mech") == "multi":
+        fails = judge_disable_multi(case["src"], list(case["disable"]))
     else:
         fails = judge_disable(case["src"], [case["disable"]]) or []
         fails = [f for f in fails if f[2].get("mech") == case.get("mech")]
